@@ -56,3 +56,14 @@ Example C13_parse_examples :
   parse_pipe (bs "name | upper | default(""x"", 2)") = {| p_initial := bs "name"; p_segs := [SFilter (bs "upper") []; SFilter (bs "default") [bs "x"; bs "2"]] |} /\
   parse_pipe (bs "len(items)") = {| p_initial := []; p_segs := [SFilter (bs "len") [bs "items"]] |}.
 Proof. vm_compute. auto. Qed.
+
+(* a string-literal argument is copied up to its matching quote: a quote of the other kind, a comma, a
+   parenthesis or a pipe inside it belongs to the literal *)
+Theorem C13_string_literal_argument : forall qc body rest cur,
+  (qc = x22 \/ qc = x27) -> ~ In qc body ->
+  parse_args_go (qc :: body ++ qc :: rest) None cur = parse_args_go rest None (rev body ++ cur).
+Proof. exact parse_args_string_literal. Qed.
+Print Assumptions C13_string_literal_argument.
+Example C13_literal_with_other_quote :
+  parse_args (bs """hasn't, (really)"", 'say ""hi""'") = [bs "hasn't, (really)"; bs "say ""hi"""].
+Proof. vm_compute. reflexivity. Qed.
